@@ -49,6 +49,9 @@ def sym_array(name, shape, dt, sort='auto', bv=False):
         nm = f'{name}[{",".join(map(str, idx))}]'
         if dtn.kind == 'f':
             v = Sym(c.input(nm, z3.RealSort()))
+            if dtn.itemsize == 4 and c.extra.get('mark_precision'):
+                # a value read from a float32 column IS a float32: rounding it again changes nothing
+                c.add(arrays._RND32(v.e) == v.e)
         elif dtn.kind in 'iu' and bv:
             v = Sym(c.input(nm, z3.BitVecSort(dtn.itemsize * 8)), dtn.kind == 'i')
         elif dtn.kind in 'iu':
